@@ -98,6 +98,38 @@ pub fn reencode<F: Family>(b: &[u8], origin: &str, ctx: &mut Ctx) -> CaseResult 
     if any {
         ctx.label(&format!("accepted-origin:{}", origin));
     }
+    // a stream: every packet the async decoder takes from the input one after the other (up to four) is re-encoded with
+    // encode_async into *one* sink, as a forwarding bridge does; each call succeeds and the sink ends up holding the
+    // concatenation of the re-encodings (re-encoding a packet does nothing to the sink but write that packet)
+    {
+        let mut r: &[u8] = b;
+        let mut pkts: Vec<F::Packet> = Vec::new();
+        while pkts.len() < 4 && !r.is_empty() {
+            match futures_lite::future::block_on(F::decode_async(&mut r)) {
+                Ok(p) => pkts.push(p),
+                Err(_) => break,
+            }
+        }
+        if pkts.len() >= 2 {
+            let mut want: Vec<u8> = Vec::new();
+            let steps = [crate::sio::WStep::Accept(3), crate::sio::WStep::Pending, crate::sio::WStep::Accept(1)];
+            let mut w = crate::sio::ScriptedWriter::new(&steps, 1 << 22);
+            for (k, p) in pkts.iter().enumerate() {
+                match F::encode(p) {
+                    Ok(e) => want.extend_from_slice(e.as_ref()),
+                    Err(_) => return Ok(()), // (judged by the single-packet part above)
+                }
+                let (res, _) = crate::sio::drive(F::encode_async(p, &mut w), want.len() + 64);
+                if let Err(e) = res {
+                    return Err(crate::run::Violation::new(format!("re-encoding packet {} of the {} decoded from {} into one sink failed with {:?} although the sink never fails ({} shutdown call(s) so far); packet {}", k + 1, pkts.len(), hex_short(b, 96), e, w.shutdowns, fam::render(p).chars().take(80).collect::<String>())));
+                }
+            }
+            if w.out != want {
+                return Err(crate::run::Violation::new(format!("the {} packets decoded from {} re-encoded into one sink: the sink holds {} bytes, the re-encodings add up to {}", pkts.len(), hex_short(b, 96), w.out.len(), want.len())));
+            }
+            ctx.label("stream-re-encoded-into-one-sink");
+        }
+    }
     Ok(())
 }
 
@@ -186,5 +218,7 @@ pub fn run(env: &mut Env) -> RunResult {
         env.require(s, "accepted-origin:byte-mutated");
     }
     env.require("c11.reencode.v5", "non-canonical:shorter-re-encoding");
+    env.require("c11.reencode.v5", "stream-re-encoded-into-one-sink");
+    env.require("c11.reencode.v3", "stream-re-encoded-into-one-sink");
     Ok(())
 }
